@@ -102,8 +102,6 @@ Definition cancels (s : st) : bool := match kmode s with KRestart => false | _ =
 Inductive label := LMain | LUser | LMon | LWatch | LRunWatch | LProc (i : nat).
 
 Definition mu_free (s : st) : bool := match mu s with None => true | _ => false end.
-(* no WaitDelay: Wait returns only when nobody alive holds the output pipes *)
-Definition pipes_free (s : st) : bool := no_holder (tbl s).
 
 (* record update helpers *)
 Definition with_tbl s v := mkSt (smode s) (kmode s) (prog s) v (ctx_done s) (mu s) (is_running s) (mon_on s) (reaped s) (rw_done s) (w_done s) (gk s) (fired s) (mainpc s) (userpc s) (monpc s).
@@ -120,45 +118,147 @@ Definition with_main s v := mkSt (smode s) (kmode s) (prog s) (tbl s) (ctx_done 
 Definition with_user s v := mkSt (smode s) (kmode s) (prog s) (tbl s) (ctx_done s) (mu s) (is_running s) (mon_on s) (reaped s) (rw_done s) (w_done s) (gk s) (fired s) (mainpc s) v (monpc s).
 Definition with_mon s v := mkSt (smode s) (kmode s) (prog s) (tbl s) (ctx_done s) (mu s) (is_running s) (mon_on s) (reaped s) (rw_done s) (w_done s) (gk s) (fired s) (mainpc s) (userpc s) v.
 
-(* Start :197-232 / Execute :240-262 (+ cmdWrapper.Run: Start; watcher; Wait) *)
+(* ---------- facts about the source (REGENERATED: coq/C05/Gen.v is written by translator-c05 from the working tree) ----------
+   The statement lists are a closed IR: the translator matches every statement of the anchored functions against a closed
+   list of shapes and fails otherwise.  The model below is parameterised by a record of these lists; what it needs of
+   them is computed by the predicates that follow. *)
+Inductive spval := SpTrue | SpFalse | SpExpr.                       (* value of SysProcAttr.Setpgid *)
+Inductive chook := CHGroupKill | CHNone | CHOther.                   (* c.Cancel = func() error { return killProcessGroup(c.Process.Pid) } *)
+Inductive sigk := SigKill | SigTerm | SigOther.
+(* killProcessGroup: if pid <= 0 {return nil}; err := syscall.Kill(<neg?>pid, sig); if errors.Is(err, ESRCH) {...}; return err;
+   any other early return is KGuardOther *)
+Inductive kstmt := KGuardNonPositive | KGuardOther | KKill (neg : bool) (sg : sigk) | KMapEsrch | KReturnErr.
+(* cmdWrapper.Run *)
+Inductive rstmt := RLockR | RDeferUnlockR | RNilCheck | RRunPlain | RStart | RRetIfErr | RCapture | RWatcher | RWait
+                 | RCloseDone | RPostKill | RFlush | RReturn.
+(* cmdWrapper.Stop: the block  if subprocess != nil { ... }  is a list of kill steps, possibly scheduled for later *)
+Inductive kstep := QPid | QLookup | QKillTreeIfFound | QGroupKill | QScheduled (l : list kstep).
+Inductive sstmt := SLockR | SDeferUnlockR | SNilCheck | SGetProcess | SCtx | SDeferCancel | SIfProcess (l : list kstep)
+                 | SWait | SFlush | SReturnNil.
+(* Subprocess.Cancel *)
+Inductive cstmt := CCancelMonitoring | CLock | CRLock | CDeferUnlock.
+(* Subprocess.stop *)
+Inductive ostmt := OIfNotOnReturn | OCheck | ORetIfErr | OLock | ODeferUnlock | ODeferCancelIf | OLogStopping | OCmdStop
+                 | OCmdReset | ORunningFalse | OLogEnd | OReturn.
+(* Subprocess.Execute *)
+Inductive estmt := ECheck | ERetIfErr | ELock | EUnlock | EDeferUnlock | EDeferCancel | EIfOnConflict | EMonReset | ECmdReset
+                 | ELogStart | ERunMonitoring | EGetCmd | ERunningTrue | ERun | ECtxErrWrap | ERunningFalse | ELogEnd | EReturn.
+(* the monitor goroutine of subprocessMonitoring.runProcessMonitoring *)
+Inductive mstmt := MOnTrue | MWaitCtx | MCancel | MStop | MStopGuarded | MOnFalse.
+
+Record facts := mkFacts {
+  g_setpgid : list spval;            (* one per platform file that has the field (linux, darwin) *)
+  g_cancel_hook : list chook;
+  g_waitdelay : list bool;           (* WaitDelay assigned *)
+  g_killgroup : list (list kstmt);
+  g_run : list rstmt; g_stop : list sstmt; g_cancel : list cstmt; g_stop_outer : list ostmt;
+  g_execute : list estmt; g_monitor : list mstmt }.
+
+Definition rcode (r : rstmt) : nat := match r with RLockR => 0 | RDeferUnlockR => 1 | RNilCheck => 2 | RRunPlain => 3 | RStart => 4
+  | RRetIfErr => 5 | RCapture => 6 | RWatcher => 7 | RWait => 8 | RCloseDone => 9 | RPostKill => 10 | RFlush => 11 | RReturn => 12 end.
+Definition ocode (o : ostmt) : nat := match o with OIfNotOnReturn => 0 | OCheck => 1 | ORetIfErr => 2 | OLock => 3 | ODeferUnlock => 4
+  | ODeferCancelIf => 5 | OLogStopping => 6 | OCmdStop => 7 | OCmdReset => 8 | ORunningFalse => 9 | OLogEnd => 10 | OReturn => 11 end.
+Definition ecode (e : estmt) : nat := match e with ECheck => 0 | ERetIfErr => 1 | ELock => 2 | EUnlock => 3 | EDeferUnlock => 4
+  | EDeferCancel => 5 | EIfOnConflict => 6 | EMonReset => 7 | ECmdReset => 8 | ELogStart => 9 | ERunMonitoring => 10 | EGetCmd => 11
+  | ERunningTrue => 12 | ERun => 13 | ECtxErrWrap => 14 | ERunningFalse => 15 | ELogEnd => 16 | EReturn => 17 end.
+Definition mcode (m : mstmt) : nat := match m with MOnTrue => 0 | MWaitCtx => 1 | MCancel => 2 | MStop => 3 | MStopGuarded => 4 | MOnFalse => 5 end.
+
+(* [x] occurs in [l]; the part of [l] before / after the first [x] *)
+Definition has (x : nat) (l : list nat) : bool := existsb (Nat.eqb x) l.
+Fixpoint before (x : nat) (l : list nat) : list nat := match l with [] => [] | y :: r => if Nat.eqb x y then [] else y :: before x r end.
+Fixpoint after (x : nat) (l : list nat) : list nat := match l with [] => [] | y :: r => if Nat.eqb x y then r else after x r end.
+
+(* the kill reaches the whole group: the command leads its own group on every platform file, and killProcessGroup sends
+   SIGKILL to -pid with no guard other than pid <= 0 in front of it *)
+Fixpoint killgroup_ok (l : list kstmt) : bool :=
+  match l with KGuardNonPositive :: r => killgroup_ok r | KKill true SigKill :: _ => true | _ => false end.
+Definition kill_works (F : facts) : bool :=
+  forallb (fun v => match v with SpTrue => true | _ => false end) (g_setpgid F) && forallb killgroup_ok (g_killgroup F).
+Definition cancel_group (F : facts) : bool := forallb (fun h => match h with CHGroupKill => true | _ => false end) (g_cancel_hook F).
+Definition no_waitdelay (F : facts) : bool := forallb negb (g_waitdelay F).
+(* Run: Start, then the context watcher, then Wait; a kill after Wait when the context is done *)
+Definition run_watches (F : facts) : bool :=
+  let l := map rcode (g_run F) in has 7 (before 8 (after 4 l)).
+Definition run_postkill (F : facts) : bool := has 10 (after 8 (map rcode (g_run F))).
+(* Stop: the kill steps that run before Wait (not scheduled for later) *)
+Definition kills_now (x : kstep) : bool := match x with QGroupKill => true | _ => false end.
+Fixpoint stop_block (l : list sstmt) : list kstep :=
+  match l with [] => [] | SWait :: _ => [] | SIfProcess k :: _ => k | _ :: r => stop_block r end.
+Definition stop_kills_before_wait (F : facts) : bool := existsb kills_now (stop_block (g_stop F)).
+Definition stop_terms (F : facts) : bool :=
+  existsb (fun x => match x with QKillTreeIfFound => true | _ => false end) (stop_block (g_stop F)).
+(* Subprocess.Cancel takes no lock of the object *)
+Definition cancel_lockfree (F : facts) : bool :=
+  forallb (fun c => match c with CCancelMonitoring => true | _ => false end) (g_cancel F) && negb (Nat.eqb (length (g_cancel F)) 0).
+(* stop(): IsOn is tested again between Lock and the command's Stop; isRunning is cleared after it *)
+Definition stop_rechecks (F : facts) : bool := let l := map ocode (g_stop_outer F) in has 0 (before 7 (after 3 l)).
+Definition stop_clears_running (F : facts) : bool := has 9 (after 7 (map ocode (g_stop_outer F))).
+(* Execute: Lock before Run and no Unlock other than the deferred one (the fact behind the known finding);
+   isRunning set before Run and cleared after it *)
+Definition exec_holds_lock (F : facts) : bool :=
+  let l := map ecode (g_execute F) in has 2 (before 13 l) && negb (has 3 (before 13 (after 2 l))).
+Definition exec_flags (F : facts) : bool :=
+  let l := map ecode (g_execute F) in has 12 (before 13 l) && has 15 (after 13 l).
+(* the monitor calls stop, unconditionally, once the process context is done *)
+Definition mon_stops (F : facts) : bool := has 3 (after 1 (map mcode (g_monitor F))).
+
+(* what cancel_kills_group needs of the source *)
+Definition facts_ok (F : facts) : bool :=
+  kill_works F && run_watches F && run_postkill F && stop_kills_before_wait F && cancel_lockfree F && stop_rechecks F &&
+  stop_clears_running F && exec_holds_lock F && exec_flags F && mon_stops F.
+
+Definition kill_leader (tb : list proc) : list proc := map (fun p => if lead p then set_dead p else p) tb.   (* default cmd.Cancel: Process.Kill *)
+
+Section Facts.
+Variable F : facts.
+
+(* a group kill as the source performs it *)
+Definition gkill (s : st) : st := if kill_works F then with_gkill s else s.
+(* with a WaitDelay, Wait gives up on the pipes (abstracted: it may return at once) *)
+Definition pipes_free (s : st) : bool := no_holder (tbl s) || negb (no_waitdelay F).
+
+(* Start :197-232 / Execute :240-262 (+ cmdWrapper.Run: Start; watcher; Wait; post-Wait kill) *)
 Definition main_step (s : st) : option st :=
   match mainpc s with
   | M0 => if mu_free s then Some (with_main (with_mu s (Some OMain)) M1) else None
   | M1 => (* runProcessMonitoring; cmd.Start; isRunning = true;  Start() then unlocks and returns *)
-      let s1 := with_mon (with_mon_on (with_running (with_tbl s [root_proc (prog s)]) true) true) NWait in
-      if executes s then Some (with_main s1 M2) else Some (with_main (with_mu s1 None) MDone)
+      let s1 := with_mon (with_mon_on (with_running (with_tbl s [root_proc (prog s)]) (if executes s then exec_flags F else true)) true) NWait in
+      if executes s then Some (with_main (if exec_holds_lock F then s1 else with_mu s1 None) M2)
+      else Some (with_main (with_mu s1 None) MDone)
   | M2 => if leader_dead (tbl s) then Some (with_main (with_reaped s) M3) else None
   | M3 => if pipes_free s then Some (with_main s M4) else None
   | M4 => (* Run: if ctx.Err() != nil { killProcessGroup };  Execute: isRunning = false; Unlock; deferred Cancel *)
-      let s1 := if ctx_done s then with_gkill s else s in
-      Some (with_main (with_ctx (with_mu (with_running s1 false) None) true) MDone)
+      let s1 := if ctx_done s && run_postkill F then gkill s else s in
+      Some (with_main (with_ctx (with_mu (with_running s1 (if exec_flags F then false else is_running s1)) None) true) MDone)
   | MDone => None
   end.
 
-(* Subprocess.stop :292-316 with cmdWrapper.Stop (as repaired: kill the tree, then the group by id, then Wait), run by [who].
+(* Subprocess.stop with cmdWrapper.Stop (kill the tree, then the group by id, then Wait), run by [who].
    [set] stores the new pc of the calling thread. *)
 Definition stop_step (who : owner) (cancel : bool) (p : spc) (set : st -> spc -> st) (s : st) : option st :=
   match p with
   | P0 => if is_on s then Some (set s P1) else Some (set s PDone)
   | P1 => if mu_free s then
-            if is_on s then Some (set (with_mu s (Some who)) PT)
+            if is_on s || negb (stop_rechecks F) then Some (set (with_mu s (Some who)) PT)
             else Some (set (with_ctx s (ctx_done s || cancel)) PDone)
           else None
-  | PT => Some (set (with_tbl s (term_leader (tbl s))) PK)      (* FindProcess + KillWithChildren: SIGTERM first *)
-  | PK => Some (set (with_gkill s) P2)                          (* ... group kill; killProcessGroup(pid) in any case *)
+  | PT => Some (set (if stop_terms F then with_tbl s (term_leader (tbl s)) else s) PK)   (* FindProcess + KillWithChildren: SIGTERM first *)
+  | PK => Some (set (if stop_kills_before_wait F then gkill s else s) P2)               (* killProcessGroup(pid), before Wait *)
   | P2 => if leader_dead (tbl s) then Some (set (with_reaped s) P3) else None
   | P3 => if pipes_free s then Some (set s P4) else None
-  | P4 => Some (set (with_ctx (with_mu (with_running s false) None) (ctx_done s || cancel)) PDone)
+  | P4 => Some (set (with_ctx (with_mu (with_running s (if stop_clears_running F then false else is_running s)) None) (ctx_done s || cancel)) PDone)
   | PDone => None
   end.
 
-(* the user's request; it is only issued on a running subprocess (the property's premise) *)
+(* the user's request; it is only issued on a running subprocess (the property's premise).
+   Cancel() must not need the object lock (Execute holds it). *)
 Definition user_step (s : st) : option st :=
   match userpc s with
   | UIdle =>
       if is_running s then
         match kmode s with
-        | KCtx | KDeadline | KCancel => Some (with_user (with_fired (with_ctx s true)) UDone)
+        | KCtx | KDeadline => Some (with_user (with_fired (with_ctx s true)) UDone)
+        | KCancel => if cancel_lockfree F || mu_free s then Some (with_user (with_fired (with_ctx s true)) UDone) else None
         | KStop | KRestart => Some (with_user (with_fired s) (UStop P0))
         end
       else None
@@ -167,27 +267,29 @@ Definition user_step (s : st) : option st :=
   | UDone => None
   end.
 
-(* monitoring.go:74-82 *)
+(* monitoring.go runProcessMonitoring *)
 Definition mon_step (s : st) : option st :=
   match monpc s with
   | NNone => None
-  | NWait => if ctx_done s then Some (with_mon s (NStop P0)) else None
+  | NWait => if ctx_done s then Some (with_mon s (NStop (if mon_stops F then P0 else PDone))) else None
   | NStop PDone => Some (with_mon (with_mon_on s false) NEnd)
   | NStop p => stop_step OMon true p (fun s' q => with_mon s' (NStop q)) s
   | NEnd => None
   end.
 
-(* os/exec watchCtx with the repaired cmd.Cancel: runs once the context is done, unless Wait has already seen the child exit *)
+(* os/exec watchCtx calling cmd.Cancel: runs once the context is done, unless Wait has already seen the child exit.
+   Without the hook, os/exec kills the direct child only. *)
 Definition watch_step (s : st) : option st :=
   match mainpc s with
   | M0 | M1 => None   (* the watcher goroutine is created by cmd.Start *)
-  | _ => if ctx_done s && negb (reaped s) && negb (w_done s) then Some (with_wdone (with_gkill s)) else None
+  | _ => if ctx_done s && negb (reaped s) && negb (w_done s)
+         then Some (with_wdone (if cancel_group F then gkill s else with_tbl s (kill_leader (tbl s)))) else None
   end.
 
 (* the watcher of cmdWrapper.Run: from cmd.Start until cmd.Wait has returned, kills the group when the context ends *)
 Definition runwatch_step (s : st) : option st :=
   match mainpc s with
-  | M2 | M3 => if ctx_done s && negb (rw_done s) then Some (with_rwdone (with_gkill s)) else None
+  | M2 | M3 => if run_watches F && ctx_done s && negb (rw_done s) then Some (with_rwdone (gkill s)) else None
   | _ => None
   end.
 
@@ -260,3 +362,5 @@ Definition surv_ok (a b : nat) : bool := Nat.eqb a b || (negb (Nat.eqb a 0) && n
 Definition check_case (c : case) : bool :=
   let s := run (init (c_start c) (c_stop c) (c_tree c)) (canonical (c_tree c) (c_spawned c)) in
   Bool.eqb (call_returned s) (c_returned c) && surv_ok (survivors (tbl s)) (c_survivors c) && Bool.eqb (is_on s) (c_ison c).
+
+End Facts.
